@@ -441,6 +441,11 @@ impl Engine for HostEngine {
     fn gen(&mut self, rng: &mut Prng, _tier: Tier) -> Case {
         Case { seed: rng.next_u64() }
     }
+    fn describe(&self, case: &Case) -> serde_json::Value {
+        let b = build(case.seed);
+        serde_json::json!({"seed": case.seed, "program": crate::pp::module(&b.module, ""),
+            "expected_calls": b.expectations.iter().filter(|e| e.path != "result").map(|e| format!("{} via {} with {:?}", e.name, e.path, e.kinds)).collect::<Vec<_>>()})
+    }
     fn run(&mut self, case: &Case, obs: &mut Obs) -> Verdict {
         let mut rng = Prng::new(case.seed ^ 0x77);
         let cfg = VmConfig::default();
@@ -453,6 +458,51 @@ impl Engine for HostEngine {
                 }
             }
             obs.inc("reserved_names_rejected");
+        }
+        // ---- host functions whose names have the same 32-bit hash: each name reaches its own function, or the
+        //      second registration is refused and the first keeps working
+        if rng.chance(1, 8) {
+            let pairs = [("costarring", "liquid"), ("declinate", "macallums"), ("altarage", "zinke"), ("altarages", "zinkes")];
+            let (mut n1, mut n2) = *rng.pick(&pairs);
+            if rng.chance(1, 2) {
+                std::mem::swap(&mut n1, &mut n2);
+            }
+            let mut vm = new_vm(&cfg, &[]);
+            let r1 = vm.register_native_function(n1, into_f1(|vm: &mut Vm<Aux>, a: Value| -> NR {
+                rec(vm, "first", vec![deep(a)]);
+                Ok(Value::Integer(1))
+            }));
+            if r1.is_err() {
+                return viol("collision:first-refused", format!("registering {n1:?} on a fresh VM failed"));
+            }
+            let r2 = vm.register_native_function(n2, into_f1(|vm: &mut Vm<Aux>, a: Value| -> NR {
+                rec(vm, "second", vec![deep(a)]);
+                Ok(Value::Integer(2))
+            }));
+            let mut m = Module::default();
+            let mut main = vec![set("_", nil()), setg("r1", native(n1, vec![int(11)]))];
+            if r2.is_ok() {
+                main.push(setg("r2", native(n2, vec![int(22)])));
+            }
+            m.functions.push(("main".into(), Function { arguments: vec![], cards: main }));
+            let program = match compile(m, CompileOptions::new()) {
+                Ok(p) => p,
+                Err(e) => return Verdict::Inconclusive { reason: format!("harness program does not compile: {e}") },
+            };
+            let r = vm.run(&program);
+            if let Err(e) = &r {
+                return viol("collision:run-failed", format!("calling {n1:?} (and {n2:?}) failed: {}", e.payload));
+            }
+            let names: Vec<String> = vm.auxiliary_data.log.iter().map(|(n, a)| format!("{n}{:?}", a.iter().map(|x| x.short()).collect::<Vec<_>>())).collect();
+            let want: Vec<String> = if r2.is_ok() { vec!["first[\"11\"]".into(), "second[\"22\"]".into()] } else { vec!["first[\"11\"]".into()] };
+            if names != want {
+                return viol(
+                    "collision:wrong-function",
+                    format!("host functions {n1:?} and {n2:?} (equal name hashes; second registration {}): the script called {n1:?}(11){} and the host saw {names:?}, expected {want:?}",
+                        if r2.is_ok() { "accepted" } else { "refused" }, if r2.is_ok() { format!(" and {n2:?}(22)") } else { String::new() }),
+                );
+            }
+            obs.inc(if r2.is_ok() { "colliding_names_dispatched" } else { "colliding_registration_refused" });
         }
         // ---- re-entry scenarios with a known answer
         if rng.chance(1, 3) {
